@@ -11,7 +11,7 @@
 EXTENDS LedgerOps, TransmitterOps
 
 CONSTANTS Grid, Events, Lats, Delays, Targets, ChainSeq, ChainLtd, ChainExp, ChainOffset, YearLen, Thr, MaxSteps, ResetAnywhere,
-          ClockScope, Fractional, Measure, RuinStep,
+          ClockScope, Fractional, Measure, Relative, RuinStep,
           MaxCalls      \* bound on the total number of calls of A and B together
 
 VARIABLES cfgA, envA, stA, hA, trackA, elogA, retA, histA,
